@@ -398,7 +398,7 @@ func c10RefStream(b []byte, mode int, huge bool) (int, []c10Rec) {
 
 // reasons why the reference rejects a stream
 const (
-	c10StreamOK = iota
+	c10StreamOK     = iota
 	c10BadVarInt    // a type or length is not minimally encoded
 	c10BadTruncated // the stream ends inside a record
 	c10BadOrder     // types not strictly increasing
